@@ -3,6 +3,7 @@
    enforced_json (Json/DepthC01.v) do on both sides of the limit. *)
 From Verif Require Import Lib.Bytes Json.Ast Json.Parse Json.Print Json.Render Json.NumFacts
   Json.ParseComplete Json.CanonFacts Json.ParseSound Json.CanonC01 Json.CanonSpecC01 Json.C01Proofs
+  Json.CanonFormProofs
   Gen.GenC01 Json.DepthC01.
 Open Scope N_scope.
 
@@ -399,7 +400,61 @@ Section Limit.
       + destruct (enforced_with true t); reflexivity.
       + destruct (bytes_eqb f fn_noverify); reflexivity.
   Qed.
+  (* the same facts with the premise on the text (what jsonNestingExceeds computes) *)
+  Lemma nesting_of_rendering v t : RendersText v t -> nesting_exceeds t limit = (limit <? json_depth v)%Z.
+  Proof.
+    intro H. rewrite nesting_exceeds_spec by exact limit_nonneg. rewrite (text_nesting_of_rendering v t H). reflexivity.
+  Qed.
+
+  Lemma cj_within g v t : RendersText v t -> nesting_exceeds t limit = false ->
+    canonical_json_with g limit t = Some (canon_print v).
+  Proof.
+    intros H E. unfold canonical_json_with. rewrite E, andb_false_r. apply canonical_of_rendering. exact H.
+  Qed.
+
+  Lemma cj_beyond t : nesting_exceeds t limit = true -> canonical_json_with true limit t = None.
+  Proof. intro E. unfold canonical_json_with. rewrite E. reflexivity. Qed.
+
+  Lemma cj_none g t : canonical t = None -> canonical_json_with g limit t = None.
+  Proof. intro E. unfold canonical_json_with. rewrite E. destruct (g && nesting_exceeds t limit); reflexivity. Qed.
+
+  Lemma cj_preserves g v t : RendersText v t -> nesting_exceeds t limit = false ->
+    exists c, canonical_json_with g limit t = Some c /\ RendersText (normalise v) c /\ jequiv (normalise v) v
+              /\ parse_json c = Some (normalise v) /\ nesting_exceeds c limit = false.
+  Proof.
+    intros H E. destruct (canonical_preserves_value v t H) as (c & Hc & Hr & Hj & Hp).
+    exists c. split; [unfold canonical_json_with; rewrite E, andb_false_r; exact Hc|].
+    repeat split; try assumption.
+    rewrite (nesting_of_rendering _ _ Hr), json_depth_normalise, <- (nesting_of_rendering v t H). exact E.
+  Qed.
+
+  Lemma cj_separates g v v' t t' c : RendersText v t -> RendersText v' t' ->
+    canonical_json_with g limit t = Some c -> canonical_json_with g limit t' = Some c -> jequiv v v'.
+  Proof.
+    intros H H' E E'. apply (canonical_separates v v' t t' H H').
+    rewrite (cj_some g t c E), (cj_some g t' c E'). reflexivity.
+  Qed.
+
+  Lemma cj_form g v t c : RendersText v t -> json_nodup v = true ->
+    canonical_json_with g limit t = Some c -> is_canonical_text c = true.
+  Proof. intros H Hn E. exact (canonical_is_canonical_form v t c H Hn (cj_some g t c E)). Qed.
+
+  Lemma ej_within gc ge v t ver : enforces ver = true -> RendersText v t -> has_bad_number v = false ->
+    nesting_exceeds t limit = false -> enforced_json_with gc ge limit ver t = Some (canon_print v).
+  Proof.
+    intros He Hr Hb E. apply ej_accepts; try assumption.
+    rewrite (nesting_of_rendering v t Hr) in E. apply Z.ltb_ge. exact E.
+  Qed.
+
+  Lemma ej_beyond ver t : nesting_exceeds t limit = true -> enforced_json_with true true limit ver t = None.
+  Proof.
+    intro E. unfold enforced_json_with, canonical_json_with. destruct (canonical_check_of ver) as [f|]; [|reflexivity].
+    rewrite E. destruct (bytes_eqb f fn_enforce); [reflexivity|]. destruct (bytes_eqb f fn_noverify); reflexivity.
+  Qed.
 End Limit.
+
+Lemma value_depth_is_json_depth v : value_depth v = json_depth v.
+Proof. reflexivity. Qed.
 
 (* ---------- nested arrays: a value and its text on either side of any limit ---------- *)
 Fixpoint nest_val (n : nat) : json :=
@@ -457,3 +512,6 @@ Proof.
     destruct (gen_canonical_json_guards_depth && nesting_exceeds t max_json_depth); reflexivity.
   - destruct (bytes_eqb f fn_noverify); [apply canonical_json_accepts_spec | reflexivity].
 Qed.
+
+Lemma max_depth_nonneg : (0 <= max_json_depth)%Z.
+Proof. vm_compute. discriminate. Qed.
